@@ -201,6 +201,7 @@ func validity(e *entry, d decoder, recv any, tripwire bool) (kind, msg string) {
 var allocSeen = map[[32]uintptr][2]int64{}
 
 func bigAllocSite() string {
+	runtime.GC() // the heap profile lags allocation by up to two completed collection cycles
 	runtime.GC()
 	runtime.GC()
 	n, _ := runtime.MemProfile(nil, true)
@@ -310,11 +311,10 @@ func (t *tailBuffer) take() string {
 var theHelper *helper
 
 func startHelper() *helper {
-	self, err := os.Executable()
-	if err != nil {
-		panic(err)
-	}
-	cmd := exec.Command(self)
+	// /proc/self/exe rather than os.Executable(): the binary on disk may have been replaced or removed (rebuilds,
+	// mutation-testing clean-ups) while this worker runs
+	var err error
+	cmd := exec.Command("/proc/self/exe")
 	cmd.Env = append(os.Environ(), "C08_CHILD=1", "GOMAXPROCS=1", "GOTRACEBACK=single")
 	h := &helper{cmd: cmd, stderr: &tailBuffer{}, done: make(chan struct{})}
 	if h.stdin, err = cmd.StdinPipe(); err != nil {
